@@ -101,6 +101,7 @@ type w1Cfg struct {
 	MaxTimeLagMs    int  `json:"position_max_time_lag_ms,omitempty"`
 	ExpiredSubMs    int  `json:"expired_sub_close_delay_ms,omitempty"`
 	QueueInitialCap int  `json:"queue_initial_cap,omitempty"`
+	Dict            bool `json:"dictionary_compression,omitempty"` // Config.DictionaryCompression with a recording engine; the transport carries it like websocketTransport
 	CSR             bool `json:"client_side_refresh,omitempty"` // ConnectReply.ClientSideRefresh + OnRefresh handler (token = seconds to prolong)
 	JoinLeaveFailPm int  `json:"broker_join_leave_fail_pm,omitempty"` // Broker.PublishJoin / PublishLeave errors
 	PresDelayPm     int  `json:"presence_delay_pm,omitempty"` // per mille of AddPresence/RemovePresence calls that take simulated time (a slow presence backend)
@@ -302,6 +303,74 @@ type w1Transport struct {
 	failWrites bool
 	stalled    bool
 	ping       PingPongConfig
+
+	// dictionary compression as websocketTransport carries it: after
+	// SetDictionaryCompression the next frame written (the connect reply) goes out raw and
+	// promotes the pending encoder, every later frame passes through Encode
+	dict        *w1DictConn
+	dictPending bool
+	inWrite     int
+}
+
+// w1DictConn is a recording DictionaryConnection (identity encoding).
+type w1DictConn struct {
+	w           *w1World
+	proto       ProtocolType
+	t           *w1Transport
+	encoding    int // Encode calls in progress
+	encodes     int
+	rawFrames   int // frames written raw after the encoder was installed
+	closes      int
+	closedSeq   int64
+	lastEncode  int64
+	closeDuring bool // Close ran while an Encode (or a transport write) was in progress
+	afterClose  int  // Encode calls / writes that began after Close
+}
+
+func (d *w1DictConn) Dictionary() *protocol.Dictionary {
+	if d.proto == ProtocolTypeJSON {
+		return &protocol.Dictionary{Id: "simdict-1", DataB64: "c2ltdWxhdGVkIGRpY3Rpb25hcnk="}
+	}
+	return &protocol.Dictionary{Id: "simdict-1", Data: []byte("simulated dictionary")}
+}
+func (d *w1DictConn) Encode(frame []byte) ([]byte, bool) {
+	if d.closes > 0 {
+		d.afterClose++
+	}
+	d.encoding++
+	d.encodes++
+	d.w.s.Pause() // compressing takes a moment: a scheduling point inside Encode
+	d.encoding--
+	d.lastEncode = d.w.next()
+	return frame, false
+}
+func (d *w1DictConn) Close() {
+	d.closes++
+	d.closedSeq = d.w.next()
+	if d.encoding > 0 || (d.t != nil && d.t.inWrite > 0) {
+		d.closeDuring = true
+	}
+}
+
+func (t *w1Transport) SetDictionaryCompression(cc DictionaryConnection) {
+	t.dict, _ = cc.(*w1DictConn)
+	if t.dict != nil {
+		t.dict.t = t
+	}
+	t.dictPending = true
+	t.w.s.Probe("dictionary_compression_installed")
+}
+func (t *w1Transport) CloseDictionaryCompression() {
+	if t.dict != nil {
+		t.dict.Close()
+	}
+}
+
+type w1DictEngine struct{ w *w1World }
+
+func (e w1DictEngine) NewDictionaryConnection(p DictionaryConnectionParams) DictionaryConnection {
+	// bound to its transport when the client installs it (SetDictionaryCompression)
+	return &w1DictConn{w: e.w, proto: p.ProtocolType}
 }
 
 func (t *w1Transport) Name() string                     { return "sim" }
@@ -332,7 +401,21 @@ func (t *w1Transport) WriteMany(datas ...[]byte) error {
 	if t.closed {
 		return io.ErrClosedPipe
 	}
+	t.inWrite++
+	defer func() { t.inWrite-- }()
 	for _, data := range datas {
+		if d := t.dict; d != nil {
+			if t.dictPending {
+				// the first frame after the encoder was installed goes out raw
+				t.dictPending = false
+				d.rawFrames++
+				if d.closes > 0 {
+					d.afterClose++
+				}
+			} else {
+				data, _ = d.Encode(data)
+			}
+		}
 		t.cl.onData(data)
 	}
 	return nil
@@ -845,6 +928,9 @@ func (w *w1World) setup() error {
 	}
 	if cfg.TimerSched {
 		nc.ClientTimerScheduler = w1TimerScheduler{}
+	}
+	if cfg.Dict {
+		nc.DictionaryCompression = w1DictEngine{w: w}
 	}
 	if cfg.MaxTimeLagMs > 0 {
 		nc.ClientChannelPositionMaxTimeLag = time.Duration(cfg.MaxTimeLagMs) * time.Millisecond
@@ -1960,6 +2046,9 @@ func w1Gen(c *simrt.Choice, prop, tier string) any {
 		cfg.ExpiredSubMs = []int{0, 500, 1000}[c.Intn(3)]
 	}
 	cfg.QueueInitialCap = []int{0, 0, 1, 2}[c.Intn(4)]
+	if prop == "C11" {
+		cfg.Dict = c.Intn(3) > 0
+	}
 	if prop == "C05" || prop == "C06" || prop == "C07" || prop == "C08" || prop == "C04" {
 		cfg.PresDelayPm = []int{0, 0, 100, 300}[c.Intn(4)]
 	}
